@@ -20,7 +20,8 @@ the union; `OPF g t` = every step's operands share a surviving index.
 **Not modelled here**: `ContractionProcessor.simplify` (a no-op under the property's guard — checked
 dynamically by the harness), `subgraphs()` (one component under the guard), the final replay of
 the bit-path through `contract_nodes` and `ssa_to_linear` (covered by the end-to-end comparison of
-costs in harness/c09.py), float rounding of `combo`/`limit` (naturals here; exact below 2^53).
+costs in harness/c09.py), float rounding of `combo`/`limit`: a factor `num/den` is modelled exactly by scores scaled with `den`
+(`Objective.combo num den`, see Model/DP.lean; `den = 1` is the literal integer-factor code).
 
 All theorems are for every network, every objective (any natural `factor`), both `search_outer`
 values and every initial `cost_cap ≥ 1`; no bound on sizes.
@@ -35,8 +36,8 @@ open Cotengra Cotengra.Net Cotengra.Legs Cotengra.DP
     (i) leaves legs meeting the characterisation for the joined node — it removes exactly the indices
     all of whose appearances are now inside — and (ii) returns `combine obj` of the operands' scores
     with the step's flops and size *as defined from the network alone*:
-    flops `a+b+F`, max `max(a,b,F)`, size `max(a,b,S)`, write `a+b+S`, combo `a+b+(F+f·S)`,
-    limit `a+b+max(F,f·S)`. -/
+    flops `a+b+F`, max `max(a,b,F)`, size `max(a,b,S)`, write `a+b+S`, combo `a+b+(den·F+num·S)`,
+    limit `a+b+max(den·F,num·S)` (factor `num/den`, scores scaled by `den`). -/
 theorem cost_fn_eq_spec (g : Net) (obj : Objective) {l r : BT} {La Lb : Legs} (a b : Nat)
     (hv : Valid g (.node l r)) (hl : LegsSpec g l La) (hr : LegsSpec g r Lb) :
     LegsSpec g (.node l r) (conCost g obj (mergeLegs La Lb).1 a b).1 ∧
@@ -273,13 +274,13 @@ example : (dp exNet .flops false 1 12).map (·.score) = some 112 := by decide
 set_option maxRecDepth 100000 in
 example : (dp exNet .size true 2 12).map (·.score) = some 12 := by decide
 set_option maxRecDepth 100000 in
-example : (dp exNet (.combo 64) false 1000 12).map (·.score) = some 2288 := by decide
+example : (dp exNet (.combo 64 1) false 1000 12).map (·.score) = some 2288 := by decide
 /-- and the theorem applies to it -/
-example : ∃ R, ∀ fuel, R ≤ fuel → ∃ e, dp exNet (.limit 3) false 17 fuel = some e ∧
-    Full exNet e.tree ∧ Adm exNet false e.tree ∧ e.score = treeCost exNet (.limit 3) e.tree ∧
+example : ∃ R, ∀ fuel, R ≤ fuel → ∃ e, dp exNet (.limit 5 2) false 17 fuel = some e ∧
+    Full exNet e.tree ∧ Adm exNet false e.tree ∧ e.score = treeCost exNet (.limit 5 2) e.tree ∧
     ∀ t', Full exNet t' → Adm exNet false t' →
-      treeCost exNet (.limit 3) e.tree ≤ treeCost exNet (.limit 3) t' :=
-  dp_optimal_connected exNet (.limit 3) false 17 exNet_guard
+      treeCost exNet (.limit 5 2) e.tree ≤ treeCost exNet (.limit 5 2) t' :=
+  dp_optimal_connected exNet (.limit 5 2) false 17 exNet_guard
     (chain_connected exNet (by decide)) (by decide) (by decide)
 
 end Cotengra.C09
